@@ -39,14 +39,22 @@ func impl(in hv.Val) hv.Val {
 		req = r
 	case 2:
 		n, v := pairs(l[1])
-		r, code := bfe_http2.VerifC25Request(n, v)
+		var body []byte
+		if len(l) > 2 {
+			body = hv.AsBytes(l[2])
+		}
+		r, code := bfe_http2.VerifC25RequestBody(n, v, body, len(l) > 2)
 		if code != 0 {
 			return hv.L{hv.I(1), hv.B{}}
 		}
 		req = r
 	case 3:
 		n, v := pairs(l[1])
-		r, code := bfe_spdy.VerifC25Request(n, v)
+		var body []byte
+		if len(l) > 2 {
+			body = hv.AsBytes(l[2])
+		}
+		r, code := bfe_spdy.VerifC25RequestBody(n, v, body, len(l) > 2)
 		if code != 0 {
 			return hv.L{hv.I(1), hv.B{}}
 		}
@@ -79,10 +87,11 @@ func alnum(r *hv.Rng, n int) string {
 	return string(b)
 }
 
-var h1Methods = []string{"GET", "POST", "PUT", "HEAD", "DELETE", "get", "M-SEARCH"}
+var h1Methods = []string{"GET", "POST", "PUT", "HEAD", "DELETE", "get", "M-SEARCH", "CONNECT"}
 var h1BadMethods = []string{"G(T", "", "GE\rT", "P@ST", "GET:", "GE\x00T"}
 var h1Targets = []string{"/", "/a", "/a/b?x=1&y=2", "*", "/index.html", "/p;v=1", "/x?q=a+b", "/~u/:x", "/\x80\xff", "/a\"b<c>",
-	"http://h.example/p", "http://h.example:8080/", "http://a-b.c", "http://h:80/x?y=1", "http://h/a\"b"}
+	"http://h.example/p", "http://h.example:8080/", "http://a-b.c", "http://h:80/x?y=1", "http://h/a\"b",
+	"/a%20b", "/a%2", "/a?q=%zz", "/a#f", "//x/y", "abc", "a:b", "h.example:443", "h:1"}
 var names = []string{"X-A", "x-b", "Accept", "user-agent", "Connection", "Cookie", "X_u", "Te", "content-type", "Zz", "Aa", "Expect", "X-A"}
 var badNames = []string{"X A", "X-A ", "X(bad)", "X\x0b", "X\x80", "x\ty", "Host ", "Transfer-Encoding ", "X\rEvil"}
 var vals = []string{"v", "a b", "close", "keep-alive", "text/plain; q=1", "", "a,b", "x:y", "1", "\x80\xff", "a\rb", "a\x00b", "\x01", "a\x7f",
@@ -162,9 +171,9 @@ func genH1(r *hv.Rng) (string, hv.Val) {
 	return class, hv.L{hv.I(1), hv.S(sb.String())}
 }
 
-var xMethods = []string{"GET", "GET", "POST", "HEAD", "OPTIONS", "get"}
+var xMethods = []string{"GET", "GET", "POST", "HEAD", "OPTIONS", "get", "CONNECT"}
 var xBadMethods = []string{"GET /evil HTTP/1.1", "G T", "GET\r\nEvil: 1", "G(T", "GET\t", "G\x80", "GET\r\n\r\nGET /x HTTP/1.1\r\nHost: y"}
-var xPaths = []string{"/", "/a", "/a/b?x=1", "*", "/\x80", "/p;v=1", "/a\"b"}
+var xPaths = []string{"/", "/a", "/a/b?x=1", "*", "/\x80", "/p;v=1", "/a\"b", "/a%20b", "/a%2", "/a?%", "//x/y", "/a#f", "abc", "a:b"}
 var xBadPaths = []string{"/a b", "/ HTTP/1.1\r\nEvil: 1\r\n\r\nGET /x", "/a\tb", "", "/a HTTP/1.1", "/\x7f", "/a\r\nX: y", "/a\nb", " /", "/a "}
 var xHosts = []string{"a.example", "b:80", "a.example", "h"}
 var xBadHosts = []string{"a b", "a\r\nEvil: 1", "a\rb", "", " a", "a\nHost: b", "a\x00b"}
@@ -200,6 +209,16 @@ func genFields(r *hv.Rng, spdy bool) (string, hv.L) {
 		j := r.Intn(i + 1)
 		ps[i], ps[j] = ps[j], ps[i]
 	}
+	if !spdy && r.Chance(1, 12) { // HTTP/2 CONNECT: :method + :authority only (sometimes with a stray pseudo header)
+		var q [][2]string
+		for _, p := range ps {
+			if p[0] == hostName || (p[0] == ":path" && r.Chance(1, 8)) || (p[0] == ":scheme" && r.Chance(1, 8)) {
+				q = append(q, p)
+			}
+		}
+		ps = append(q, [2]string{":method", "CONNECT"})
+		class = "connect"
+	}
 	if r.Chance(1, 30) {
 		ps = ps[1:]
 		class = "missing-pseudo"
@@ -230,15 +249,34 @@ func genFields(r *hv.Rng, spdy bool) (string, hv.L) {
 }
 
 func gen(r *hv.Rng, i int, tier string) (string, hv.Val) {
+	// requests with a body on HTTP/2 / SPDY: content-length absent (re-framed as one chunk), equal to the body
+	// length (incl. 0 and empty body), HEAD with body (rejected), occasionally a mismatching value (not modelled)
+	withBody := func(tag int, label string, spdy bool) (string, hv.Val) {
+		c, fs := genFields(r, spdy)
+		if !r.Chance(1, 3) {
+			return label + c, hv.L{hv.I(tag), fs}
+		}
+		body := alnum(r, r.Intn(40))
+		if r.Chance(1, 5) {
+			body = ""
+		}
+		switch r.Intn(6) {
+		case 0, 1:
+			fs = append(fs, hv.L{hv.S("content-length"), hv.S(fmt.Sprintf("%d", len(body)))})
+		case 2:
+			if r.Chance(1, 4) {
+				fs = append(fs, hv.L{hv.S("content-length"), hv.S(fmt.Sprintf("%d", len(body)+1))})
+			}
+		}
+		return label + "body-" + c, hv.L{hv.I(tag), fs, hv.S(body)}
+	}
 	switch i % 3 {
 	case 0:
 		return genH1(r)
 	case 1:
-		c, fs := genFields(r, false)
-		return "h2-" + c, hv.L{hv.I(2), fs}
+		return withBody(2, "h2-", false)
 	default:
-		c, fs := genFields(r, true)
-		return "spdy-" + c, hv.L{hv.I(3), fs}
+		return withBody(3, "spdy-", true)
 	}
 }
 
